@@ -124,6 +124,9 @@ func runC20(c *engine.Ctx) {
 				for _, pt := range []uint8{ref.PTSi, ref.PTSr} {
 					mm := ref.Msg{H: univ.BaseHdr, P: []ref.Payload{{T: pt, TS: []ref.Selector{{Type: ty, Proto: 6, SPort: 1, EPort: 2, SAddr: ad[0], EAddr: ad[1]}}}}}
 					c20Encode(c, c20Case{K: "encode", Name: fmt.Sprintf("TS.addrlen-mismatch=%d/%d", i, ty), M: &mm})
+					// the payload that cannot be encoded is not the first one
+					m3 := ref.Msg{H: univ.BaseHdr, P: []ref.Payload{{T: ref.PNonce, Data: univ.Pat(32, i)}, {T: ref.PVendor, Data: univ.Pat(9, i)}, mm.P[0], {T: ref.PNonce, Data: univ.Pat(8, i)}}}
+					c20Encode(c, c20Case{K: "encode", Name: fmt.Sprintf("TS.addrlen-mismatch(third payload)=%d/%d", i, ty), M: &m3})
 				}
 			}
 		}
@@ -434,6 +437,21 @@ func c20Encode(c *engine.Ctx, cs c20Case) {
 			c.Violate("encode-alters-payloads/refused-message", fmt.Sprintf("%s: Encode returns an error (%s) and a payload differs afterwards", cs.Name, errStr(err)), cs)
 		}
 		c.Count("encode_refused", 1)
+		// ... and it concerns that message only: what another message encodes to right afterwards is a function of that
+		// other message
+		other := ref.Msg{H: univ.BaseHdr, P: []ref.Payload{{T: ref.PNonce, Data: univ.Pat(16, 3)}, {T: ref.PNotify, B: 0, NType: 16384}}}
+		if om, oerr := univ.Build(other); oerr == nil {
+			var ob []byte
+			var oe error
+			if pi := engine.Catch(func() { ob, oe = om.Encode() }); pi != nil {
+				c.Violate(pi.Sig(), "Encode after a refused Encode panics: "+pi.Value, cs)
+				return
+			}
+			if wb, werr := ref.Encode(other, ref.Lib{}); werr == nil && (oe != nil || !bytes.Equal(ob, wb)) {
+				c.Violate("encoding-depends-on-earlier-refused-encode", fmt.Sprintf("%s: after this message was refused by Encode, another message encodes to %x… (err %v) instead of %x…", cs.Name, trunc(ob, 48), oe, trunc(wb, 48)), cs)
+				return
+			}
+		}
 		return
 	}
 	c.Transitions++
